@@ -715,9 +715,13 @@ def default_ws(world, fname):
     return "single" if (fname.endswith(".html") or fname.endswith(".js")) else "all"
 
 
-def default_autoescape(world):
+def default_autoescape(world, fname=None):
     if world["mode"] == "direct":
         return world["tkw"].get("autoescape", "xhtml_escape")
+    if world["mode"] == "both" and fname == world["entry"] and "autoescape" in world["tkw"]:
+        # Template(source, loader=..., autoescape=...): the explicit argument wins for that one template,
+        # files the loader loads keep the loader's setting
+        return world["tkw"]["autoescape"]
     return world["lkw"].get("autoescape", "xhtml_escape")
 
 
@@ -736,7 +740,7 @@ class Interp:
         if fname in self.ws:
             return
         mode = [default_ws(self.w, fname)]
-        auto = [default_autoescape(self.w)]
+        auto = [default_autoescape(self.w, fname)]
 
         def ann(body):
             out = []
@@ -1005,6 +1009,12 @@ def run_real(world, rend):
     try:
         if world["mode"] == "direct":
             t = template.Template(srcs[world["entry"]], **world["tkw"])
+        elif world["mode"] == "both":
+            lkw = dict(world["lkw"])
+            if world.get("lns"):
+                lkw["namespace"] = dict(FUNCS)
+            loader = template.DictLoader(srcs, **lkw)
+            t = template.Template(srcs[world["entry"]], name=world["entry"], loader=loader, **world["tkw"])
         else:
             lkw = dict(world["lkw"])
             if world.get("lns"):
